@@ -118,3 +118,347 @@ Proof.
     + destruct (rfind m (fst nt)); auto. rewrite rfind_radd_other by auto. reflexivity.
   - intro F. apply Hx. apply (payload_dom _ _ (set_rc_payload m nt x)). exact F.
 Qed.
+
+(* ---- the invariant ---- *)
+Record tq_inv (q : tqueue) : Prop := {
+  ti_heap : heap_inv (rle (tq_recs q)) (tq_heap q);
+  (* every record in the heap carries its own position (the handle is the record) *)
+  ti_rc : handles (tq_pos (tq_recs q)) (tq_heap q);
+  (* the live records are exactly the heap's elements *)
+  ti_dom : forall id, rfind (tq_recs q) id <> None -> In id (elems (tq_heap q))
+}.
+
+Lemma heap_inv_ext (le1 le2 : N -> N -> Prop) h :
+  (forall a b, In a (elems h) -> In b (elems h) -> le1 a b -> le2 a b) ->
+  heap_inv le1 h -> heap_inv le2 h.
+Proof.
+  intros H [Hn HO]. split; auto. intros j Hj Hk. assert (par j < j) by (apply par_lt; lia).
+  apply H; try (apply el_In; lia). apply HO; auto.
+Qed.
+
+Lemma handles_NoDup pos h : handles pos h -> NoDup (elems h).
+Proof.
+  intros H. apply (NoDup_nth (elems h) 0%N). intros i j Hi Hj E.
+  eapply handles_inj; eauto.
+Qed.
+
+Lemma live_rec q id : tq_inv q -> In id (elems (tq_heap q)) ->
+  exists r, rfind (tq_recs q) id = Some r /\ r_rc r < length (elems (tq_heap q)) /\
+            el (elems (tq_heap q)) (r_rc r) = id.
+Proof.
+  intros I Hin. destruct (In_el _ _ Hin) as (i & Hi & E).
+  assert (P := ti_rc q I i Hi). rewrite E in P. unfold tq_pos in P.
+  destruct (rfind (tq_recs q) id) as [r|]; [|discriminate]. simpl in P. injection P as P.
+  exists r. rewrite P. auto.
+Qed.
+
+Lemma tvof_radd_other m id r x : x <> id -> tvof (radd m id r) x = tvof m x.
+Proof. intros. unfold tvof. rewrite rfind_radd_other by auto. reflexivity. Qed.
+Lemma tvof_radd_same m id r : tvof (radd m id r) id = r_tv r.
+Proof. unfold tvof. rewrite rfind_radd_same. reflexivity. Qed.
+Lemma tvof_set_rcs m ns x : tvof (set_rcs m ns) x = tvof m x.
+Proof. apply payload_tvof. apply set_rcs_payload. Qed.
+Lemma tvof_rdel_other m id x : x <> id -> tvof (rdel m id) x = tvof m x.
+Proof. intros. unfold tvof. rewrite rfind_rdel_other by auto. reflexivity. Qed.
+
+Section TQ.
+  Variables qsz rsz : N.
+
+  Definition qsmall (q : tqueue) : Prop := small (length (elems (tq_heap q))).
+
+  (* ---- add ---- *)
+  Theorem tq_add_spec q id tv ptr o : tq_inv q -> rfind (tq_recs q) id = None -> qsmall q ->
+    exists c q' o' ev,
+      timerqueue_add std_tc std_hc rsz q id tv ptr o = Ok (c, q', o', ev) /\
+      (c = None -> q' = q /\ refused ev = true) /\
+      (c <> None -> c = Some id /\ refused ev = false /\ tq_inv q' /\
+         Permutation (elems (tq_heap q')) (id :: elems (tq_heap q)) /\
+         (exists r, rfind (tq_recs q') id = Some r /\ r_tv r = tv /\ r_ptr r = ptr) /\
+         (forall x, x <> id -> same_payload (rfind (tq_recs q') x) (rfind (tq_recs q) x))).
+  Proof.
+    intros I Hfresh Hs. unfold timerqueue_add.
+    destruct (next o) as [okR o1]. destruct okR; cbn [negb].
+    2:{ do 4 eexists. split; [reflexivity|]. split; [auto | intros H; contradiction H; reflexivity]. }
+    set (m1 := radd (tq_recs q) id {| r_tv := tv; r_rc := 0; r_ptr := ptr |}).
+    assert (Hnot : ~ In id (elems (tq_heap q))).
+    { intros Hin. destruct (live_rec q id I Hin) as (r & F & _). congruence. }
+    assert (HI1 : heap_inv (rle m1) (tq_heap q)).
+    { apply heap_inv_ext with (le1 := rle (tq_recs q)); [|apply (ti_heap q I)].
+      intros a b Ha Hb. unfold rle, m1. rewrite !tvof_radd_other by (intro; subst; contradiction). auto. }
+    destruct (add_spec (reccmp m1) (rle m1) (rle_ok m1) true (tq_heap q) id o1 HI1 Hs)
+      as (ok & h' & ns & o' & ev & E & Hfail & Hok).
+    rewrite E. cbn [bind]. destruct ok; cbn [negb].
+    - destruct (Hok eq_refl) as (Href & HI' & HP & HH).
+      do 4 eexists. split; [reflexivity|]. split; [discriminate|]. intros _.
+      split; [reflexivity|]. split.
+      { unfold refused in *. cbn. exact Href. }
+      assert (Hdom1 : forall x, In x (elems h') -> rfind m1 x <> None).
+      { intros x Hx. apply (Permutation_in _ HP) in Hx. destruct Hx as [<-|Hx].
+        - unfold m1. rewrite rfind_radd_same. discriminate.
+        - unfold m1. destruct (live_rec q x I Hx) as (r & F & _).
+          rewrite rfind_radd_other by (intro; subst; contradiction). congruence. }
+      split; [|split; [|split]]; cbn [tq_heap tq_recs].
+      + split; cbn [tq_heap tq_recs].
+        * apply heap_inv_ext with (le1 := rle m1); auto.
+          intros a b _ _. unfold rle. rewrite !tvof_set_rcs. auto.
+        * intros i Hi. rewrite set_rcs_pos by (apply Hdom1; apply el_In; auto).
+          apply HH; auto.
+          intros j Hj. unfold tq_pos, m1.
+          rewrite rfind_radd_other by (intro Ej; apply Hnot; rewrite <- Ej; apply el_In; auto).
+          apply (ti_rc q I j Hj).
+        * intros x Hx. apply (Permutation_in _ (Permutation_sym HP)).
+          assert (Hx1 : rfind m1 x <> None).
+          { intro F. apply Hx. apply (payload_dom _ _ (set_rcs_payload ns m1 x)). exact F. }
+          destruct (N.eq_dec x id) as [->|Hne]; [left; auto|right].
+          unfold m1 in Hx1. rewrite rfind_radd_other in Hx1 by auto. apply (ti_dom q I). auto.
+      + exact HP.
+      + destruct (set_rcs_payload ns m1 id) as [P1 P2].
+        assert (F1 : rfind m1 id = Some {| r_tv := tv; r_rc := 0; r_ptr := ptr |}) by (unfold m1; apply rfind_radd_same).
+        rewrite F1 in P1, P2. simpl in P1, P2.
+        destruct (rfind (set_rcs m1 ns) id) as [r|]; [|discriminate].
+        exists r. simpl in P1, P2. split; auto. split; congruence.
+      + intros x Hne. eapply same_payload_trans; [apply set_rcs_payload|].
+        unfold m1. rewrite rfind_radd_other by auto. apply same_payload_refl.
+    - destruct (Hfail eq_refl) as (-> & -> & Href).
+      do 4 eexists. split; [reflexivity|]. split; [|intros H; contradiction H; reflexivity].
+      intros _. split; auto. unfold refused in *. cbn. rewrite existsb_app, Href. reflexivity.
+  Qed.
+
+  (* ---- removing the record [id] whose stored position is used as the handle ---- *)
+  Lemma tq_remove q id r o : tq_inv q -> qsmall q -> In id (elems (tq_heap q)) ->
+    rfind (tq_recs q) id = Some r ->
+    exists h' ns o' ev,
+      ptrheap_delete std_tc std_hc (reccmp (tq_recs q)) true (tq_heap q) (r_rc r) o = Ok (h', ns, o', ev) /\
+      let q' := {| tq_heap := h'; tq_recs := rdel (set_rcs (tq_recs q) ns) id |} in
+      tq_inv q' /\ Permutation (id :: elems h') (elems (tq_heap q)) /\
+      rfind (tq_recs q') id = None /\
+      (forall x, x <> id -> same_payload (rfind (tq_recs q') x) (rfind (tq_recs q) x)).
+  Proof.
+    intros I Hs Hin F. destruct (live_rec q id I Hin) as (r' & F' & Hrc & Eid).
+    assert (r' = r) by congruence. subst r'.
+    destruct (ti_heap q I) as [Hn HO].
+    destruct (delete_spec (reccmp (tq_recs q)) (rle (tq_recs q)) (rle_ok _) true (tq_heap q) (r_rc r) o
+                (ti_heap q I) Hs ltac:(lia)) as (h' & ns & o' & ev & E & HI' & HP & HH).
+    rewrite Eid in HP. exists h', ns, o', ev. split; [exact E|]. cbv zeta. cbn [tq_heap tq_recs].
+    assert (ND : NoDup (id :: elems h')).
+    { eapply Permutation_NoDup; [apply Permutation_sym; exact HP|]. eapply handles_NoDup. apply (ti_rc q I). }
+    apply NoDup_cons_iff in ND. destruct ND as [Hnot ND'].
+    assert (Hne : forall x, In x (elems h') -> x <> id) by (intros x Hx ->; contradiction).
+    split; [|split; [|split]].
+    - split; cbn [tq_heap tq_recs].
+      + apply heap_inv_ext with (le1 := rle (tq_recs q)); auto.
+        intros a b Ha Hb. unfold rle. rewrite !tvof_rdel_other, !tvof_set_rcs by auto. auto.
+      + intros i Hi. assert (Hx : In (el (elems h') i) (elems h')) by (apply el_In; auto).
+        unfold tq_pos. rewrite rfind_rdel_other by auto. fold (tq_pos (set_rcs (tq_recs q) ns) (el (elems h') i)).
+        rewrite set_rcs_pos.
+        * apply HH; auto. apply (ti_rc q I).
+        * assert (Hx' : In (el (elems h') i) (elems (tq_heap q))) by (apply (Permutation_in _ HP); right; auto).
+          destruct (live_rec q _ I Hx') as (rr & Fr & _). congruence.
+      + intros x Hx. destruct (N.eq_dec x id) as [->|Hxne]; [rewrite rfind_rdel_same in Hx; contradiction|].
+        rewrite rfind_rdel_other in Hx by auto.
+        assert (Hx1 : rfind (tq_recs q) x <> None).
+        { intro F0. apply Hx. apply (payload_dom _ _ (set_rcs_payload ns (tq_recs q) x)). exact F0. }
+        apply (ti_dom q I) in Hx1. apply (Permutation_in _ (Permutation_sym HP)) in Hx1.
+        destruct Hx1; [congruence|auto].
+    - exact HP.
+    - apply rfind_rdel_same.
+    - intros x Hx. rewrite rfind_rdel_other by auto. apply set_rcs_payload.
+  Qed.
+
+  (* ---- delete by cookie ---- *)
+  Theorem tq_delete_spec q id o : tq_inv q -> qsmall q -> In id (elems (tq_heap q)) ->
+    exists q' o' ev,
+      timerqueue_delete std_tc std_hc rsz q id o = Ok (q', o', ev) /\
+      tq_inv q' /\ Permutation (id :: elems (tq_heap q')) (elems (tq_heap q)) /\
+      rfind (tq_recs q') id = None /\
+      (forall x, x <> id -> same_payload (rfind (tq_recs q') x) (rfind (tq_recs q) x)).
+  Proof.
+    intros I Hs Hin. destruct (live_rec q id I Hin) as (r & F & _).
+    unfold timerqueue_delete. rewrite F.
+    destruct (tq_remove q id r o I Hs Hin F) as (h' & ns & o' & ev & E & HI' & HP & Hnone & Hoth).
+    rewrite E. cbn [bind]. do 3 eexists. split; [reflexivity|]. auto.
+  Qed.
+
+  (* ---- getmin ---- *)
+  Theorem tq_getmin_spec q : tq_inv q ->
+    exists r, timerqueue_getmin q = Ok r /\
+      match r with
+      | None => elems (tq_heap q) = []
+      | Some tv => exists id rec, In id (elems (tq_heap q)) /\ rfind (tq_recs q) id = Some rec /\
+                     r_tv rec = tv /\
+                     forall id' rec', In id' (elems (tq_heap q)) -> rfind (tq_recs q) id' = Some rec' ->
+                                      tv_le tv (r_tv rec')
+      end.
+  Proof.
+    intros I. unfold timerqueue_getmin.
+    destruct (ptrheap_getmin (tq_heap q)) as [[id|]| | |] eqn:G;
+      try (rewrite (getmin_run (rle (tq_recs q)) _ (ti_heap q I)) in G; discriminate).
+    - cbn [bind].
+      destruct (getmin_least (reccmp (tq_recs q)) (rle (tq_recs q)) (rle_ok _) _ id (ti_heap q I) G) as [Hin Hleast].
+      destruct (live_rec q id I Hin) as (r & F & _). rewrite F.
+      eexists. split; [reflexivity|]. exists id, r. split; auto. split; auto. split; auto.
+      intros id' rec' Hin' F'. specialize (Hleast id' Hin'). unfold rle, tvof in Hleast.
+      rewrite F, F' in Hleast. exact Hleast.
+    - cbn [bind]. eexists. split; [reflexivity|].
+      apply (getmin_none (rle (tq_recs q)) _ (ti_heap q I)). exact G.
+  Qed.
+
+  (* ---- getptr ---- *)
+  Theorem tq_getptr_spec q tv o : tq_inv q -> qsmall q ->
+    exists p q' o' ev,
+      timerqueue_getptr std_tc std_hc rsz q tv o = Ok (p, q', o', ev) /\
+      match p with
+      | None =>
+        (* nothing is due: no change *)
+        q' = q /\ o' = o /\ ev = [] /\
+        forall id rec, In id (elems (tq_heap q)) -> rfind (tq_recs q) id = Some rec -> ~ tv_le (r_tv rec) tv
+      | Some ptr =>
+        exists id rec, In id (elems (tq_heap q)) /\ rfind (tq_recs q) id = Some rec /\
+          r_ptr rec = ptr /\                       (* exactly the pointer stored with the entry *)
+          tv_le (r_tv rec) tv /\                    (* not later than the query time *)
+          (forall id' rec', In id' (elems (tq_heap q)) -> rfind (tq_recs q) id' = Some rec' ->
+                            tv_le (r_tv rec) (r_tv rec')) /\      (* a least entry *)
+          tq_inv q' /\ Permutation (id :: elems (tq_heap q')) (elems (tq_heap q)) /\
+          rfind (tq_recs q') id = None /\
+          (forall x, x <> id -> same_payload (rfind (tq_recs q') x) (rfind (tq_recs q) x))
+      end.
+  Proof.
+    intros I Hs. unfold timerqueue_getptr.
+    destruct (ptrheap_getmin (tq_heap q)) as [[id|]| | |] eqn:G;
+      try (rewrite (getmin_run (rle (tq_recs q)) _ (ti_heap q I)) in G; discriminate).
+    - cbn [bind].
+      destruct (getmin_least (reccmp (tq_recs q)) (rle (tq_recs q)) (rle_ok _) _ id (ti_heap q I) G) as [Hin Hleast].
+      destruct (live_rec q id I Hin) as (r & F & Hrc & Eid). rewrite F.
+      assert (Hmin : forall id' rec', In id' (elems (tq_heap q)) -> rfind (tq_recs q) id' = Some rec' ->
+                                     tv_le (r_tv r) (r_tv rec')).
+      { intros id' rec' Hin' F'. specialize (Hleast id' Hin'). unfold rle, tvof in Hleast.
+        rewrite F, F' in Hleast. exact Hleast. }
+      destruct (tvcmp (r_tv r) tv >? 0)%Z eqn:EC.
+      + apply tvcmp_gt in EC. do 4 eexists. split; [reflexivity|]. split; auto. split; auto. split; auto.
+        intros id' rec' Hin' F' L. apply EC. eapply tv_le_trans; [apply (Hmin id' rec'); auto | exact L].
+      + assert (Hle : tv_le (r_tv r) tv).
+        { apply tvcmp_le. rewrite Z.gtb_ltb in EC. apply Z.ltb_ge in EC. exact EC. }
+        (* the minimum sits at position 0, and its record says so *)
+        assert (Hr0 : r_rc r = 0).
+        { rewrite (getmin_run (rle (tq_recs q)) _ (ti_heap q I)) in G.
+          destruct (elems (tq_heap q)) as [|a l] eqn:EL; [discriminate|]. injection G as ->.
+          assert (P0 := ti_rc q I 0). rewrite EL in P0. specialize (P0 ltac:(simpl; lia)).
+          change (el (id :: l) 0) with id in P0. unfold tq_pos in P0. rewrite F in P0. simpl in P0. congruence. }
+        unfold ptrheap_deletemin.
+        destruct (tq_remove q id r o I Hs Hin F) as (h' & ns & o' & ev & E & HI' & HP & Hnone & Hoth).
+        rewrite Hr0 in E. rewrite E. cbn [bind]. do 4 eexists. split; [reflexivity|].
+        exists id, r. repeat (split; auto).
+    - cbn [bind]. do 4 eexists. split; [reflexivity|]. split; auto. split; auto. split; auto.
+      intros id rec Hin. apply (getmin_none (rle (tq_recs q)) _ (ti_heap q I)) in G. rewrite G in Hin. contradiction.
+  Qed.
+
+  (* ---- increase by cookie ---- *)
+  Theorem tq_increase_spec q id tv : tq_inv q -> In id (elems (tq_heap q)) ->
+    (forall r, rfind (tq_recs q) id = Some r -> tv_le (r_tv r) tv) ->
+    exists q',
+      timerqueue_increase std_tc q id tv = Ok q' /\
+      tq_inv q' /\ Permutation (elems (tq_heap q')) (elems (tq_heap q)) /\
+      (exists r r0, rfind (tq_recs q') id = Some r /\ rfind (tq_recs q) id = Some r0 /\
+                    r_tv r = tv /\ r_ptr r = r_ptr r0) /\
+      (forall x, x <> id -> same_payload (rfind (tq_recs q') x) (rfind (tq_recs q) x)).
+  Proof.
+    intros I Hin Hgrow. destruct (live_rec q id I Hin) as (r & F & Hrc & Eid).
+    unfold timerqueue_increase. rewrite F.
+    set (m1 := radd (tq_recs q) id {| r_tv := tv; r_rc := r_rc r; r_ptr := r_ptr r |}).
+    destruct (ti_heap q I) as [Hn HO].
+    assert (Hpos1 : forall x, tq_pos m1 x = tq_pos (tq_recs q) x).
+    { intros x. unfold tq_pos, m1. destruct (N.eq_dec x id) as [->|Hne].
+      - rewrite rfind_radd_same, F. reflexivity.
+      - rewrite rfind_radd_other by auto. reflexivity. }
+    assert (HA : adown (rle m1) 0 (nelems (tq_heap q)) (elems (tq_heap q)) (r_rc r)).
+    { apply grew_adown with (le0 := rle (tq_recs q)) (x := id); auto; try lia.
+      - intros a b c. apply tv_le_trans.
+      - intros a b Ha Hb. unfold rle, m1. rewrite !tvof_radd_other by auto. reflexivity.
+      - intros i j Hi Hj. eapply handles_inj; [apply (ti_rc q I) | lia | lia].
+      - intros a La. unfold rle in *. unfold m1 at 2. rewrite tvof_radd_same. cbn [r_tv].
+        destruct (N.eq_dec a id) as [->|Hne].
+        + unfold m1. rewrite tvof_radd_same. apply tv_le_refl.
+        + unfold m1. rewrite tvof_radd_other by auto. eapply tv_le_trans; [exact La|].
+          unfold tvof. rewrite F. apply Hgrow. auto. }
+    destruct (increase_spec (reccmp m1) (rle m1) (rle_ok m1) true (tq_heap q) (r_rc r) Hn HA)
+      as (h' & ns & E & HI' & HP & _ & HH).
+    rewrite E. cbn [bind]. eexists. split; [reflexivity|]. cbn [tq_heap tq_recs].
+    assert (Hdom1 : forall x, In x (elems h') -> rfind m1 x <> None).
+    { intros x Hx. apply (Permutation_in _ HP) in Hx. destruct (live_rec q x I Hx) as (rr & Fr & _).
+      unfold m1. destruct (N.eq_dec x id) as [->|Hne]; [rewrite rfind_radd_same; discriminate|].
+      rewrite rfind_radd_other by auto. congruence. }
+    split; [|split; [|split]].
+    - split; cbn [tq_heap tq_recs].
+      + apply heap_inv_ext with (le1 := rle m1); auto.
+        intros a b _ _. unfold rle. rewrite !tvof_set_rcs. auto.
+      + intros i Hi. rewrite set_rcs_pos by (apply Hdom1; apply el_In; auto).
+        apply HH; auto. intros j Hj. rewrite Hpos1. apply (ti_rc q I j Hj).
+      + intros x Hx. apply (Permutation_in _ (Permutation_sym HP)). apply (ti_dom q I).
+        assert (Hx1 : rfind m1 x <> None).
+        { intro F0. apply Hx. apply (payload_dom _ _ (set_rcs_payload ns m1 x)). exact F0. }
+        destruct (N.eq_dec x id) as [->|Hne]; [congruence|].
+        unfold m1 in Hx1. rewrite rfind_radd_other in Hx1 by auto. exact Hx1.
+    - exact HP.
+    - destruct (set_rcs_payload ns m1 id) as [P1 P2].
+      assert (F1 : rfind m1 id = Some {| r_tv := tv; r_rc := r_rc r; r_ptr := r_ptr r |})
+        by (unfold m1; apply rfind_radd_same).
+      rewrite F1 in P1, P2. simpl in P1, P2.
+      destruct (rfind (set_rcs m1 ns) id) as [r1|]; [|discriminate].
+      exists r1, r. simpl in P1, P2. split; auto. split; auto. split; congruence.
+    - intros x Hne. eapply same_payload_trans; [apply set_rcs_payload|].
+      unfold m1. rewrite rfind_radd_other by auto. apply same_payload_refl.
+  Qed.
+
+  (* ---- init ---- *)
+  Theorem tq_init_spec o :
+    exists oq o' ev, timerqueue_init std_tc std_hc qsz o = Ok (oq, o', ev) /\
+      (oq = None -> refused ev = true) /\
+      (forall q, oq = Some q -> refused ev = false /\ tq_inv q /\ elems (tq_heap q) = []).
+  Proof.
+    unfold timerqueue_init. destruct (next o) as [okQ o1]. destruct okQ; cbn [negb].
+    2:{ do 3 eexists. split; [reflexivity|]. split; [auto|discriminate]. }
+    unfold ptrheap_init.
+    destruct (create_spec (reccmp (PositiveMap.empty _)) (rle (PositiveMap.empty _)) (rle_ok _) true [] o1)
+      as (oh & ns & o' & ev & E & Hnone & Hsome).
+    { unfold small. simpl. lia. }
+    rewrite E. cbn [bind]. destruct oh as [h|].
+    - destruct (Hsome h eq_refl) as (Href & HI & HP & _).
+      do 3 eexists. split; [reflexivity|]. split; [discriminate|]. intros q [= <-].
+      apply Permutation_sym, Permutation_nil in HP.
+      split; [unfold refused in *; cbn; exact Href|]. split; [|exact HP].
+      split; cbn [tq_heap tq_recs]; auto.
+      + intros i Hi. rewrite HP in Hi. simpl in Hi. lia.
+      + intros id Hid. rewrite rfind_empty in Hid. contradiction.
+    - destruct (Hnone eq_refl) as (_ & Href).
+      do 3 eexists. split; [reflexivity|]. split; [|discriminate]. intros _.
+      unfold refused in *. cbn. rewrite existsb_app, Href. reflexivity.
+  Qed.
+
+  (* ---- entries are released in non-decreasing time order: whatever getptr hands out next
+          (after any number of deletions, increases and fruitless polls that leave the entry
+          alone) is not earlier, because it was queued when the first one was a least entry ---- *)
+  Corollary tq_release_order q tv1 o1 p1 q1 o1' ev1 tv2 o2 p2 q2 o2' ev2 :
+    tq_inv q -> qsmall q -> qsmall q1 ->
+    timerqueue_getptr std_tc std_hc rsz q tv1 o1 = Ok (Some p1, q1, o1', ev1) ->
+    timerqueue_getptr std_tc std_hc rsz q1 tv2 o2 = Ok (Some p2, q2, o2', ev2) ->
+    exists id1 r1 id2 r2,
+      rfind (tq_recs q) id1 = Some r1 /\ r_ptr r1 = p1 /\
+      rfind (tq_recs q) id2 = Some r2 /\ r_ptr r2 = p2 /\ id1 <> id2 /\
+      tv_le (r_tv r1) (r_tv r2).
+  Proof.
+    intros I Hs Hs1 G1 G2.
+    destruct (tq_getptr_spec q tv1 o1 I Hs) as (p & q' & o' & ev & E & Hspec).
+    rewrite G1 in E. injection E as <- <- <- <-.
+    destruct Hspec as (id1 & r1 & Hin1 & F1 & Hp1 & _ & Hmin1 & I1 & HP1 & Hnone1 & Hoth1).
+    destruct (tq_getptr_spec q1 tv2 o2 I1 Hs1) as (p & q' & o' & ev & E & Hspec).
+    rewrite G2 in E. injection E as <- <- <- <-.
+    destruct Hspec as (id2 & r2' & Hin2 & F2 & Hp2 & _ & _ & _).
+    assert (Hne : id2 <> id1) by (intro; subst; congruence).
+    destruct (Hoth1 id2 Hne) as [PT PP]. rewrite F2 in PT, PP.
+    destruct (rfind (tq_recs q) id2) as [r2|] eqn:F2q; [|discriminate]. simpl in PT, PP.
+    exists id1, r1, id2, r2.
+    split; auto. split; auto. split; auto. split; [congruence|]. split; [auto|].
+    apply (Hmin1 id2 r2); auto.
+    apply (Permutation_in _ HP1). right. exact Hin2.
+  Qed.
+End TQ.
